@@ -1,19 +1,16 @@
-\* seeded random subset (TLC -seed) of the 3-id graphs with versions / non-relation members / <= 2 members
 CONSTANTS
   N = 3
   MaxMem = 2
-  MaxReq = 2
-  Family = "mixed"
+  MaxReq = 0
+  Family = "flat"
   FlagFamily = "plain"
   WithBad = FALSE
   CanonicalReqs = FALSE
+  MaxSeq = 3
   VersionSets <- MCVersions
   ReqLists <- MCReqs
   BadSets <- MCBad
   FlagSets <- MCFlags
-  Slice = 0
-  Slices = 1
-  Sample = 3000
 INIT Init
-NEXT GNext
+NEXT LNext
 CHECK_DEADLOCK FALSE
